@@ -204,6 +204,13 @@ class Table(Vector):
 			# Create Vectors with names from dict keys
 			initial = [Vector(values, name=col_name) for col_name, values in initial.items()]
 		
+		# Reject input that would make the table ragged
+		if initial and len({len(vec) for vec in initial}) > 1:
+			raise SerifValueError(
+				"All columns of a Table must have the same length; "
+				f"got lengths {[len(vec) for vec in initial]}"
+			)
+
 		self._length = len(initial[0]) if initial else 0
 		
 		# Deep copy columns to enforce value semantics
